@@ -103,6 +103,8 @@ pub struct HistoryStats {
 }
 
 pub trait Observer {
+    /// Called once, right after the group has been created by its first member.
+    fn on_start(&mut self, _w: &mut World) {}
     /// Called after every accepted commit (all members have moved to the new epoch).
     fn after_commit(&mut self, _w: &mut World, _info: &CommitInfo, _st: &HistoryStats) -> CaseResult {
         Ok(())
@@ -655,21 +657,22 @@ pub fn run_property<O: Observer>(
     rule: &str,
     hp: &HistoryParams,
     spec: RunSpec,
-    mk: &(dyn Fn(&Case, &Evidence) -> O + Sync),
+    mk: &(dyn Fn(&Case, &'static Evidence) -> O + Sync),
     nontrivial: &(dyn Fn(&HistoryStats, &O) -> bool + Sync),
 ) -> ! {
-    let ev = Evidence::new(prop, ctx.tier, ctx.seed, level);
+    let ev: &'static Evidence = Box::leak(Box::new(Evidence::new(prop, ctx.tier, ctx.seed, level)));
     ev.set_rule(rule);
     ev.assume("providers' own randomness (key generation, HPKE ephemerals, signatures) is not seeded; verdicts do not depend on it");
     ev.assume("generated histories issue only API calls an application may issue; ops that make no sense in the current state are skipped and counted");
 
     let run_case = |case: &Case| -> CaseResult {
         ev.eval(1);
-        let mut obs = mk(case, &ev);
+        let mut obs = mk(case, ev);
         let mut h = History::start(prop, case, hp)?;
+        obs.on_start(&mut h.w);
         h.grow_initial(case, &mut obs)?;
         h.run_ops(case, &mut obs)?;
-        classify_history(&ev, &h.stats);
+        classify_history(ev, &h.stats);
         for (k, v) in &h.w.counters {
             ev.class_n(k, *v);
         }
@@ -682,11 +685,11 @@ pub fn run_property<O: Observer>(
 
     if let Some(path) = &ctx.replay {
         let v: Value = serde_json::from_str(&std::fs::read_to_string(path).unwrap_or_default()).unwrap_or_default();
-        let case = Case::from_json(&v["case"]).unwrap_or_else(|| inconclusive(&ev, "replay file has no case"));
+        let case = Case::from_json(&v["case"]).unwrap_or_else(|| inconclusive(ev, "replay file has no case"));
         return match catch(|| run_case(&case)) {
-            Ok(Ok(())) => finish_ok(&ev),
-            Ok(Err(f)) => finish_violation(&ev, Violation { failure: f, case: Some(case.clone()) }, case.to_json()),
-            Err(p) => inconclusive(&ev, &format!("harness panic: {p}")),
+            Ok(Ok(())) => finish_ok(ev),
+            Ok(Err(f)) => finish_violation(ev, Violation { failure: f, case: Some(case.clone()) }, case.to_json()),
+            Err(p) => inconclusive(ev, &format!("harness panic: {p}")),
         };
     }
 
@@ -694,20 +697,20 @@ pub fn run_property<O: Observer>(
         if let Some(case) = Case::from_json(&v["case"]) {
             match catch(|| run_case(&case)) {
                 Ok(Ok(())) => ev.class("regression_replays"),
-                Ok(Err(f)) => finish_violation(&ev, Violation { failure: f, case: Some(case.clone()) }, case.to_json()),
-                Err(p) => inconclusive(&ev, &format!("harness panic on {}: {p}", path.display())),
+                Ok(Err(f)) => finish_violation(ev, Violation { failure: f, case: Some(case.clone()) }, case.to_json()),
+                Err(p) => inconclusive(ev, &format!("harness panic on {}: {p}", path.display())),
             }
         }
     }
 
-    match run_sharded(&ev, &spec, prop.as_bytes().iter().map(|b| *b as u64).sum(), &run_case) {
-        Ok(()) => finish_ok(&ev),
+    match run_sharded(ev, &spec, prop.as_bytes().iter().map(|b| *b as u64).sum(), &run_case) {
+        Ok(()) => finish_ok(ev),
         Err(v) => {
             let payload = v.case.as_ref().map(|c| c.to_json()).unwrap_or(Value::Null);
             if let Some(c) = &v.case {
                 eprintln!("minimal failing case: {}", describe_case(c, hp));
             }
-            finish_violation(&ev, v, payload)
+            finish_violation(ev, v, payload)
         }
     }
 }
